@@ -30,6 +30,7 @@ from props import c20
 
 TITLE = "tabulation counts"
 LEVEL = "proof"
+DOMAINS = ['Out']
 
 FNAMES = ["color", "word", "task", "resp", "dir", "size", "f 1", "Kind"]
 LNAMES = ["red", "blue", "green", "x", "y", "z", "left", "right", "up", "a b", "1", "2", "café", "lo,hi",
@@ -288,7 +289,7 @@ def check_property(factors, exps, trials, real):
     _, tables, status = real
     lens = [len(e[0][1]) for e in exps if e]
     if status is not None:
-        if trials == []:
+        if any(w[0][2] == 0 for w in exp[1] if w):
             return ("c21:empty-trials", "raised %s for an empty trial selection" % status)
         if trials is None and len(set(lens)) > 1:
             return ("c21:default-trials-leak", "raised %s with default trials on experiments of lengths %r" % (status, lens))
